@@ -169,6 +169,7 @@ func Run() []string {
 		out = append(out, classify(v))
 	}
 	out = append(out, "chan "+channels())
+	out = append(out, fmt.Sprint("par ", parallelSum([]int{1, 2, 3, 4})))
 	del := map[string]int{"x": 1, "y": 2, "z": 3}
 	seen := 0
 	for k := range del {
@@ -181,3 +182,24 @@ func Run() []string {
 	out = append(out, fmt.Sprint("seen ", seen))
 	return out
 }
+
+func parallelSum(xs []int) int {
+	var wg sync.WaitGroup
+	var mu sync.Mutex
+	total := 0
+	for _, x := range xs {
+		wg.Add(1)
+		go func(v int) {
+			defer wg.Done()
+			mu.Lock()
+			total += v
+			mu.Unlock()
+		}(x)
+	}
+	wg.Wait()
+	res := make(chan int, 1)
+	go produce(res, total)
+	return <-res
+}
+
+func produce(c chan int, v int) { c <- v * 2 }
